@@ -290,7 +290,7 @@ SPECB = ('tyset_empty', 'tyset_of', 'in_set', 'card0', 'card1', 'cardmany',
          'cls_preq', 'cls_bases', 'reg_has', 'reg_has_tag', 'reg_lookup',
          'reg_types', 'reg_tags', 'recog_ok', 'sav_ok', 'sav_result',
          'E', 'err_msg', 'err_causes', 'image_list', 'reg_len', 'set_remove',
-         'image_dict_key', 'image_dict_val', 'dashed', 'is_base_of', 'wf_ty', 'forall_in', 'sav_trace', 'empty_tys', 'prefix_of', 'document_type',
+         'image_dict_key', 'image_dict_val', 'dashed', 'undashed', 'is_base_of', 'wf_ty', 'forall_in', 'sav_trace', 'empty_tys', 'prefix_of', 'document_type',
          'composed_document', 'yielded', 'is_enum_member', 'is_obj_of',
          'enum_has', 'new_ok', 'yaml_int_dom', 'yaml_float_dom',
          'yaml_bool_dom', 'yaml_int', 'yaml_float', 'yaml_bool', 'enum_name',
@@ -989,6 +989,8 @@ class TypesPlugin:
             return VBool(wf_ty(T(args[0])))
         if name == 'dashed':
             return VStr(so.repl_ud(args[0].t))
+        if name == 'undashed':
+            return VStr(so.repl_du(args[0].t))
         if name == 'is_base_of':
             # is_base_of(base, sub): base in sub.__bases__
             return VBool(z3.Contains(ct_bases(T(args[1])),
